@@ -112,6 +112,38 @@ func focusReqs(focus string, gr *rand.Rand) []Req {
 	return nil
 }
 
+// untouchedReqs: barcodes encoded before the barrier on which nothing at all is called
+// until every goroutine reads them at once (lazily materialised state inside a
+// returned barcode would be initialised concurrently).  Families whose encoding would
+// warm up what the descriptor wants to hit cold are left out.
+func untouchedReqs(d *raceDesc) []Req {
+	if d.Micro {
+		return nil
+	}
+	var out []Req
+	cold := map[string][]string{"pdf417": {"pdf417"}, "code128": {"code128"}, "ean-2of5-codabar": {"ean", "2of5", "codabar"}, "code39-93-long": {"code39", "code93"},
+		"onedim": {"code128", "ean", "2of5", "codabar", "code39", "code93"}, "rs-climb": {"qr", "datamatrix"}, "qr-big": {"qr"}, "datamatrix-big": {"datamatrix"}}
+	skip := map[string]bool{}
+	for _, f := range cold[d.Focus] {
+		skip[f] = true
+	}
+	if strings.HasPrefix(d.Focus, "aztec") {
+		skip["aztec"] = true
+	}
+	for _, q := range []Req{
+		{Fam: "pdf417", S: []byte("untouched PDF417 barcode, 1234567890123456"), I: []int64{3}, Scheme: -1}, {Fam: "pdf417", S: []byte("second untouched"), I: []int64{0}, Scheme: 11},
+		{Fam: "qr", S: []byte("untouched QR"), I: []int64{2, 0}, Scheme: -1}, {Fam: "datamatrix", S: []byte("untouched DataMatrix"), Scheme: 5},
+		{Fam: "aztec", S: []byte("untouched Aztec"), I: []int64{33, 0}, Scheme: -1}, {Fam: "code128", S: []byte("untouched128"), Scheme: -1},
+		{Fam: "ean", S: []byte("4006381333931"), Scheme: 6}, {Fam: "code39", S: []byte("UNTOUCHED"), I: []int64{1, 0}, Scheme: -1}, {Fam: "code93", S: []byte("UNTOUCHED"), I: []int64{1, 0}, Scheme: -1},
+		{Fam: "codabar", S: []byte("A0123B"), Scheme: -1}, {Fam: "2of5", S: []byte("123456"), I: []int64{1}, Scheme: 8},
+	} {
+		if !skip[q.Fam] {
+			out = append(out, q)
+		}
+	}
+	return out
+}
+
 type raceOut struct {
 	ID          string            `json:"id"`
 	Digests     map[string]string `json:"digests"`  // request key -> digest ("rejected" if refused)
@@ -304,6 +336,11 @@ func auxRaceWork(args []string) int {
 			accs = append(accs, sharedAcc{s, "", s.Metadata().CodeKind})
 		}
 	}
+	untouchedQ := untouchedReqs(&d)
+	untouched := make([]barcode.Barcode, len(untouchedQ))
+	for i, q := range untouchedQ {
+		untouched[i], _ = q.do() // nothing is called on the result before the barrier
+	}
 	var shared []rsShared
 	for _, fs := range c17Fields {
 		gf := utils.NewGaloisField(fs.pp, fs.size, fs.base)
@@ -347,6 +384,25 @@ func auxRaceWork(args []string) int {
 			var heldErr error
 			var heldText string
 			<-start
+			for k, ub := range untouched {
+				if ub == nil {
+					continue
+				}
+				rc := rec{key: untouchedQ[k].Key(), t0: time.Now()}
+				var dg string
+				if pv, st := fw.Call(func() {
+					if sc, err := barcode.Scale(ub, 2*ub.Bounds().Dx()+g%3, 2*ub.Bounds().Dy()+1); err != nil || sc == nil {
+						probs[g] = append(probs[g], fmt.Sprintf("untouched shared barcode: Scale failed: %v", err))
+					} else {
+						_ = sc.At(sc.Bounds().Dx()/2, sc.Bounds().Dy()/2)
+					}
+					dg = digest(ub)
+				}); pv != nil {
+					rc.panic = fmt.Sprintf("%v\n%s", pv, st)
+				}
+				rc.digest, rc.t1 = dg, time.Now()
+				my = append(my, rc)
+			}
 			for i, q := range lists[g] {
 				var rc rec
 				rc.key = q.Key()
@@ -715,6 +771,11 @@ func (p c16) Run(par *fw.Parent) *fw.Result {
 			for _, q := range l {
 				uniq[q.Key()] = q
 			}
+		}
+	}
+	for i := range descs {
+		for _, q := range untouchedReqs(&descs[i]) {
+			uniq[q.Key()] = q
 		}
 	}
 	var keys []string
